@@ -229,20 +229,57 @@ def run_case(case, ctx):
                 yt = int(yts[idx])
                 yp = yt ^ int(errs[idx])
                 sel0 = {mid: s.calls for mid, s in selectors.items()}
-                try:
-                    ens.update(arg, yt, yp)
-                except ValueError as e:
-                    if "Standard deviation is 0" in str(e):
-                        ctx.count("cusum_zero_variance_case_ended")
-                        break
-                    raise
-                total += 1
-                since += 1
-                for mid, t in twins.items():
-                    xin = arg
-                    if mid in twin_sel:
-                        xin = arg[twin_sel[mid][0]] if frame else arg[:, twin_sel[mid][1]]
-                    t.update(X=xin, y_true=yt, y_pred=yp)
+                if rng.random() < 0.03:
+                    # a malformed call (two observations at once): members that look at X refuse it.  The members before the refusing
+                    # one have been updated (exactly like their twins, which are driven in the same order); the ensemble must pass the
+                    # ValueError on and must not count the call
+                    two = np.vstack([row, row + 1.0])
+                    bad = pd.DataFrame(two, columns=colnames) if frame else two
+                    c0 = zoo.counters(ens)
+                    try:
+                        ens.update(bad, yt, yp)
+                        raised = False
+                    except ValueError:
+                        raised = True
+                    traised = False
+                    for mid, t in twins.items():
+                        xin = bad
+                        if mid in twin_sel:
+                            xin = bad[twin_sel[mid][0]] if frame else bad[:, twin_sel[mid][1]]
+                        try:
+                            t.update(X=xin, y_true=yt, y_pred=yp)
+                        except ValueError:
+                            traised = True
+                            break
+                    ctx.count("malformed_ensemble_calls")
+                    if raised != traised:
+                        ctx.violation("C12/malformed_call", "call %d: a two-row X %s by the ensemble but %s by the members run alone" % (
+                            si, "was refused" if raised else "was accepted", "refused" if traised else "accepted"), **base)
+                        return
+                    if raised:
+                        if zoo.counters(ens) != c0:
+                            ctx.violation("C12/ensemble_counters_after_rejection", "call %d: the ensemble counted a call that one of its members refused (%r -> %r)" % (
+                                si, c0, zoo.counters(ens)), **base)
+                            return
+                        op = "rejected_update"
+                    else:
+                        total += 1
+                        since += 1
+                else:
+                    try:
+                        ens.update(arg, yt, yp)
+                    except ValueError as e:
+                        if "Standard deviation is 0" in str(e):
+                            ctx.count("cusum_zero_variance_case_ended")
+                            break
+                        raise
+                    total += 1
+                    since += 1
+                    for mid, t in twins.items():
+                        xin = arg
+                        if mid in twin_sel:
+                            xin = arg[twin_sel[mid][0]] if frame else arg[:, twin_sel[mid][1]]
+                        t.update(X=xin, y_true=yt, y_pred=yp)
             else:
                 B = batches[idx]
                 arg = pd.DataFrame(B.copy(), columns=colnames) if frame else B.copy()
@@ -259,6 +296,8 @@ def run_case(case, ctx):
                         xin = arg[twin_sel[mid][0]] if frame else arg[:, twin_sel[mid][1]]
                     getattr(t, op)(X=xin, y_true=None, y_pred=None)
             for mid, s in selectors.items():
+                if op == "rejected_update":
+                    break
                 ctx.count("selector_calls_checked")
                 if s.calls != sel0[mid] + 1:
                     ctx.violation("C12/selector_use", "call %d (%s): the selector of member %s was applied %d times (expected once)" % (si, op, mid, s.calls - sel0[mid]), **base)
